@@ -1,5 +1,6 @@
 import CMacVerif.Lemmas.SubgridLayout
 import CMacVerif.Lemmas.SplitInvariance
+import CMacVerif.Lemmas.SplitCopies
 import Mathlib.Algebra.Order.Field.Rat
 import Mathlib.Tactic.NormNum
 import Mathlib.Tactic.FieldSimp
@@ -298,6 +299,103 @@ theorem fold_once (L : Layout) (prev levels : List Nat) (hlen : levels.length = 
 /-- non-vacuity of `fold_once`, including entries of `_copies` left behind by an earlier assignment -/
 example : let L : Layout := ⟨2, 1, 2, 1, 1, 1, false, false, true⟩
     foldVisits (createCopies L [4, 5, noCopy, noCopy] [0, 0, 2, 1]) = [(2, 4), (2, 5), (2, 6), (3, 7)] := by decide
+
+
+/-- **fold_once over any history.**  The hypothesis of `fold_once` about entries of `_copies` left behind is
+not an assumption: after the constructor and ANY sequence of level assignments (`create_copies` once,
+`update_copies` afterwards) every entry of `_copies` is `0xffffffff` or an old vector size `≥ n`
+(`copiesAfter_inv`), so the fold visits every copy of the newest assignment exactly once under its own
+original. -/
+theorem fold_once_history (L : Layout) (hist : List (List Nat)) (levels : List Nat) (hlen : levels.length = L.size)
+    (hbound : L.size + ((levels.map fun l => 2 ^ l - 1).sum) < noCopy) :
+    let C := createCopies L (copiesAfter L hist) levels
+    C.copies = copiesAfter L (hist ++ [levels]) ∧
+    foldVisits C = C.originals.zip (List.range' L.size C.originals.length) ∧
+    (foldVisits C).map Prod.snd = List.range' L.size (C.rows.length - L.size) ∧
+    (∀ v ∈ foldVisits C, originalOf C v.2 = v.1 ∧ v.1 < L.size ∧ L.size ≤ v.2 ∧ v.2 < C.rows.length) := by
+  refine ⟨?_, fold_once L (copiesAfter L hist) levels hlen (copiesAfter_inv L hist) hbound⟩
+  simp [copiesAfter, createCopies_copies]
+
+/-- **fold_cells.**  Cell level of "folding duplicates back adds every contribution exactly once".  Every
+subgrid holds one counter per cell (`mx·my·mz` of them).  After `update_original_counters` (the fold walk with
+`update_intensities`, whose loop runs over `_number_of_cells[3] * _number_of_cells[0]` cells) cell `j` of the
+original `s` holds its own counter plus the counter of cell `j` of each of its copies — the copies of `s` are
+the subgrids `n + k` with `_originals[k] = s`, each taken once — for EVERY cell `j` of the subgrid, and the
+copies are unchanged. -/
+theorem fold_cells (L : Layout) (prev levels : List Nat) (hlen : levels.length = L.size)
+    (hprev : ∀ p ∈ prev, p = noCopy ∨ L.size ≤ p)
+    (hbound : L.size + ((levels.map fun l => 2 ^ l - 1).sum) < noCopy)
+    (cells : List (List Nat)) (hcl : cells.length = (createCopies L prev levels).rows.length)
+    (hM : ∀ i, i < cells.length → (cells.getD i []).length = L.mx * L.my * L.mz) :
+    let C := createCopies L prev levels
+    (∀ s, s < L.size → ∀ j, j < L.mx * L.my * L.mz →
+      ((foldCells L C cells).getD s []).getD j 0
+        = (cells.getD s []).getD j 0
+          + (((C.originals.zip (List.range' L.size C.originals.length)).filter (fun v => v.1 = s)).map
+              (fun v => (cells.getD v.2 []).getD j 0)).sum) ∧
+    (∀ i, L.size ≤ i → (foldCells L C cells).getD i [] = cells.getD i []) := by
+  intro C
+  show _ ∧ _
+  simp only [C]
+  obtain ⟨hmain, _, hvis⟩ := fold_once L prev levels hlen hprev hbound
+  try simp only [] at hmain hvis
+  have hcounts := copies_counts L prev levels hlen
+  try simp only [] at hcounts
+  have hN : L.size ≤ cells.length := by rw [hcl, hcounts.1]; omega
+  have hgen := foldl_visits L L.size (foldVisits (createCopies L prev levels)) cells hN
+    (fun v hv => ⟨(hvis v hv).2.1, (hvis v hv).2.2.1⟩)
+  have htot : L.totNcell = L.mx * L.my * L.mz := by unfold Layout.totNcell; ring
+  constructor
+  · intro s hs j hj
+    unfold foldCells
+    rw [hgen s, if_pos hs, foldl_updateIntensities_getD L _ _ j (by rw [hM s (by omega)]; exact hj) (by rw [htot]; exact hj),
+      List.map_map, hmain]
+    rfl
+  · intro i hi
+    unfold foldCells
+    rw [hgen i, if_neg (by omega)]
+
+/-- **push_cells.**  "Push the new state to the copies": after `update_copy_properties` (the same walk with
+`update_neutral_fractions`) every copy holds, in EVERY cell, the state of its own original, and the originals
+are unchanged. -/
+theorem push_cells (L : Layout) (prev levels : List Nat) (hlen : levels.length = L.size)
+    (hprev : ∀ p ∈ prev, p = noCopy ∨ L.size ≤ p)
+    (hbound : L.size + ((levels.map fun l => 2 ^ l - 1).sum) < noCopy)
+    (cells : List (List Nat)) (hcl : cells.length = (createCopies L prev levels).rows.length)
+    (hM : ∀ i, i < cells.length → (cells.getD i []).length = L.mx * L.my * L.mz) :
+    let C := createCopies L prev levels
+    (∀ i, L.size ≤ i → i < C.rows.length → (pushCells L C cells).getD i [] = cells.getD (originalOf C i) []) ∧
+    (∀ s, s < L.size → (pushCells L C cells).getD s [] = cells.getD s []) := by
+  intro C
+  show _ ∧ _
+  simp only [C]
+  obtain ⟨hmain, hsnd, hvis⟩ := fold_once L prev levels hlen hprev hbound
+  try simp only [] at hmain hsnd hvis
+  have htot : L.totNcell = L.mx * L.my * L.mz := by unfold Layout.totNcell; ring
+  have hnd : ((foldVisits (createCopies L prev levels)).map Prod.snd).Nodup := by
+    rw [hsnd]; exact List.nodup_range' ..
+  obtain ⟨h1, h2⟩ := foldl_push L L.size (foldVisits (createCopies L prev levels)) cells
+    (fun v hv => ⟨(hvis v hv).2.1, (hvis v hv).2.2.1, by rw [hcl]; exact (hvis v hv).2.2.2⟩) hnd
+  constructor
+  · intro i hi hlt
+    have hmem : i ∈ (foldVisits (createCopies L prev levels)).map Prod.snd := by
+      rw [hsnd, List.mem_range']; exact ⟨i - L.size, by omega, by omega⟩
+    obtain ⟨v, hv, rfl⟩ := List.mem_map.mp hmem
+    have hvv := hvis v hv
+    unfold pushCells
+    rw [h1 v hv, hvv.1, updateNeutralFractions_eq L _ _ (by rw [hM _ (by rw [hcl]; exact hvv.2.2.2), htot])
+      (by rw [hM _ (by rw [hcl]; omega), htot])]
+  · intro s hs
+    unfold pushCells
+    exact h2 s (fun v hv h => by have := (hvis v hv).2.2.1; omega)
+
+/-- non-vacuity of `fold_cells` / `push_cells`: 2x1x2 subgrids of 1x2x1 cells, levels 0 0 2 1 -/
+example : let L : Layout := ⟨2, 1, 2, 1, 2, 1, false, false, true⟩
+    let C := createCopies L (List.replicate 4 noCopy) [0, 0, 2, 1]
+    foldCells L C [[1, 2], [3, 4], [5, 6], [7, 8], [10, 20], [30, 40], [50, 60], [70, 80]]
+        = [[1, 2], [3, 4], [95, 126], [77, 88], [10, 20], [30, 40], [50, 60], [70, 80]]
+    ∧ pushCells L C [[1, 2], [3, 4], [5, 6], [7, 8], [10, 20], [30, 40], [50, 60], [70, 80]]
+        = [[1, 2], [3, 4], [5, 6], [7, 8], [5, 6], [5, 6], [5, 6], [7, 8]] := by decide
 
 
 /-! ## 5. the hand-over -/
@@ -610,6 +708,30 @@ theorem split_invariance_halts (g : Geom K) (L : Layout) (field : Int × Int × 
           (runSum ((rayModel g field).step (wholeLayout L)) f' ((rayModel g field).start (wholeLayout L) pk)).2 :=
   Split.split_invariance_halts hok hn hs f hA
 
+/-- **split_invariance_copies.**  The duplicate clause of the property for the march itself.  Assumptions of
+`split_invariance`; any assignment of copy levels (`create_copies`, or `update_copies` on any previous
+`_copies`), every copy holding the cell contents of its original (`push_cells`), the packet starting in ANY
+member `k0 < 2^level` of the family of its start subgrid.  The chained run follows the neighbour tables of
+`create_copies` through originals and copies (`Split.aStepC`; by `copies_wiring` every step stays in the family
+of the geometric neighbour) and deposits in whatever copy it is; the totals count each deposit for the cell of
+the ORIGINAL, which is what the counters hold after `update_original_counters` (`fold_cells`).  If that run is
+over, the run through the same grid as one block is over as well, with the same per-cell totals and the same
+end.  (Proof: relabelling copies by their originals maps the run, step by step and deposit by deposit, onto the
+run through the originals alone — `Split.copies_square`.) -/
+theorem split_invariance_copies (g : Geom K) (L : Layout) (field : Int × Int × Int → Cell K) (pk : Photon K)
+    (hok : Ok g L field pk) (hn : ∀ a, 0 < (nV L).get a) (hs : StartInside g L pk)
+    (prev levels : List Nat) (hlen : levels.length = L.size) (k0 : Nat)
+    (hk0 : k0 < 2 ^ levels.getD (subgridOf g L pk.pos) 0) (f : Nat)
+    (hA : Halts (aStepC g field L (createCopies L prev levels)) f (startOfC g L (createCopies L prev levels) pk k0)) :
+    ∃ f', Halts ((rayModel g field).step (wholeLayout L)) f' ((rayModel g field).start (wholeLayout L) pk)
+      ∧ (runSum (aStepC g field L (createCopies L prev levels)) f (startOfC g L (createCopies L prev levels) pk k0)).1
+          = (runSum ((rayModel g field).step (wholeLayout L)) f' ((rayModel g field).start (wholeLayout L) pk)).1
+      ∧ FinalAgree (envOf g L field pk)
+          (proj (createCopies L prev levels)
+            (runSum (aStepC g field L (createCopies L prev levels)) f (startOfC g L (createCopies L prev levels) pk k0)).2)
+          (runSum ((rayModel g field).step (wholeLayout L)) f' ((rayModel g field).start (wholeLayout L) pk)).2 :=
+  Split.split_invariance_copies hok hn hs prev levels hlen k0 hk0 f hA
+
 /-- the commutation hypothesis of `split_invariance_partial`, discharged for C02's march against the
 reference run on the unfolded lattice (one-sided: every pass of the chained run is a pass of the reference
 run with the same deposit, or deposits nothing) -/
@@ -662,6 +784,18 @@ example :
     ∧ (runSum (aStep exG exF exL) 3 (startOf exG exL exPk)).1 (1, 0, 0) = 1
     ∧ (runSum (aStep exG exF (whole exL)) 2 (startOf exG (whole exL) exPk)).1 (0, 0, 0) = 1 / 2
     ∧ (runSum (aStep exG exF (whole exL)) 2 (startOf exG (whole exL) exPk)).1 (1, 0, 0) = 1 := by
+  decide +kernel
+
+/-- non-vacuity of `split_invariance_copies`: the same grid with subgrid 0 duplicated once and subgrid 1 three
+times, the packet starts in the copy of subgrid 0 and continues in a copy of subgrid 1 -/
+example :
+    let C := createCopies exL (List.replicate 2 noCopy) [1, 2]
+    (aStepC exG exF exL C (runSum (aStepC exG exF exL C) 3 (startOfC exG exL C exPk 1)).2).isNone = true
+    ∧ (runSum (aStepC exG exF exL C) 3 (startOfC exG exL C exPk 1)).1 (0, 0, 0) = 1 / 2
+    ∧ (runSum (aStepC exG exF exL C) 3 (startOfC exG exL C exPk 1)).1 (1, 0, 0) = 1
+    ∧ (match (runSum (aStepC exG exF exL C) 1 (startOfC exG exL C exPk 1)).2 with
+        | .inGrid i _ => i
+        | _ => 99) = 3 := by
   decide +kernel
 
 end example_full
